@@ -1,0 +1,98 @@
+//! Verification hooks, only compiled with `--cfg rivia_verif`.
+//!
+//! A simulator installs a [`Hooks`] implementation on each client thread; without one installed
+//! on the calling thread every function here is a no-op, and without the cfg flag none of this
+//! module exists.
+use std::{
+    cell::RefCell,
+    path::{Path, PathBuf},
+    sync::Arc,
+};
+
+/// Callbacks a simulator can install per thread
+pub trait Hooks: Send + Sync {
+    /// Called immediately before a Memfs guard is acquired (`write` = exclusive)
+    fn before_acquire(&self, _write: bool) {}
+
+    /// Called when a Memfs guard is dropped, immediately before the lock is released
+    fn released(&self, _write: bool) {}
+
+    /// May permute the child paths of `dir` (any order is a legal HashSet iteration order)
+    fn dir_order(&self, _dir: &Path, _items: &mut Vec<PathBuf>) {}
+
+    /// Override for the traversal descriptor cap
+    fn max_descriptors(&self) -> Option<u16> {
+        None
+    }
+}
+
+thread_local! {
+    static HOOKS: RefCell<Option<Arc<dyn Hooks>>> = const { RefCell::new(None) };
+}
+
+/// Install (or with `None` remove) the hooks of the calling thread
+pub fn install(hooks: Option<Arc<dyn Hooks>>) {
+    HOOKS.with(|h| *h.borrow_mut() = hooks);
+}
+
+fn current() -> Option<Arc<dyn Hooks>> {
+    HOOKS.try_with(|h| h.borrow().clone()).unwrap_or(None)
+}
+
+pub(crate) fn before_acquire(write: bool) {
+    if let Some(h) = current() {
+        h.before_acquire(write);
+    }
+}
+
+pub(crate) fn released(write: bool) {
+    if let Some(h) = current() {
+        h.released(write);
+    }
+}
+
+pub(crate) fn dir_order(dir: &Path, items: &mut Vec<PathBuf>) {
+    if let Some(h) = current() {
+        h.dir_order(dir, items);
+    }
+}
+
+pub(crate) fn max_descriptors() -> Option<u16> {
+    current().and_then(|h| h.max_descriptors())
+}
+
+/// One entry of a [`VerifSnapshot`]: the raw fields of the stored entry plus the key it is stored under
+#[derive(Debug, Clone, PartialEq, Eq)]
+pub struct VerifEntry {
+    pub key: PathBuf,
+    pub path: PathBuf,
+    pub alt: PathBuf,
+    pub rel: PathBuf,
+    pub dir: bool,
+    pub file: bool,
+    pub link: bool,
+    pub mode: u32,
+    pub uid: u32,
+    pub gid: u32,
+    pub follow: bool,
+    pub children: Option<Vec<String>>,
+}
+
+/// One stored data file of a [`VerifSnapshot`]
+#[derive(Debug, Clone, PartialEq, Eq)]
+pub struct VerifFile {
+    pub key: PathBuf,
+    pub data: Vec<u8>,
+    pub pos: u64,
+    pub path: Option<PathBuf>,
+}
+
+/// Complete, sorted, owned copy of the internal state of a Memfs instance
+#[derive(Debug, Clone, PartialEq, Eq)]
+pub struct VerifSnapshot {
+    pub cwd: PathBuf,
+    pub root: PathBuf,
+    pub poisoned: bool,
+    pub entries: Vec<VerifEntry>,
+    pub files: Vec<VerifFile>,
+}
